@@ -439,6 +439,69 @@ def env_task(_):
     return p
 
 
+CROSS_CODE = r"""
+import json, os, sys
+sys.path.insert(0, os.environ["KDVERIF_REPO"])
+import torch
+from kappadata.samplers.weighted_sampler import WeightedSampler
+from kappadata.samplers.class_balanced_sampler import ClassBalancedSampler
+from kappadata.samplers.semi_sampler import SemiSampler
+from kappadata.samplers.distributed_sampler import DistributedSampler
+class DS:
+    def __init__(self, c): self.c = c
+    def __len__(self): return len(self.c)
+    def getall_class(self): return list(self.c)
+    def getitem_class(self, i, ctx=None): return self.c[i]
+    def getshape_class(self): return (3,)
+    def getdim_class(self): return 3
+ds, semi = DS([0, 1, 0, 1, 2, 2, 0, 1]), DS([0, -1, 1, -1, -1, 0, -1, 1])
+out = {}
+for seed in (0, 5):
+    for epoch in (0, 3):
+        for r in range(2):
+            def put(name, s):
+                s.set_epoch(epoch)
+                out[f"{name}/{seed}/{epoch}/{r}"] = [int(i) for i in s]
+            put("weighted", WeightedSampler(ds, weights=torch.tensor([1., 2., 1., 3., 1., 1., 2., 1.]), seed=seed, rank=r, world_size=2))
+            put("class_balanced", ClassBalancedSampler(ds, shuffle=True, seed=seed, rank=r, world_size=2))
+            put("semi", SemiSampler(semi, num_labeled=1, num_unlabeled=1, seed=seed, rank=r, world_size=2))
+            put("distributed", DistributedSampler(ds, num_replicas=2, rank=r, shuffle=True, seed=seed))
+print("STREAMS " + json.dumps(out, sort_keys=True))
+"""
+
+
+def cross_interpreter_task(_):
+    """Ranks are separate interpreter processes: the draw for (seed, epoch) must be the same in every interpreter, whatever
+    its string-hash randomisation (PYTHONHASHSEED) - otherwise the ranks do not split ONE global draw."""
+    import json
+    import os
+    import subprocess
+    import sys
+    from ..core import env
+    p = Partial()
+    outs = []
+    procs = [subprocess.Popen([sys.executable, "-c", CROSS_CODE], stdout=subprocess.PIPE, stderr=subprocess.PIPE, text=True,
+                              env=dict(os.environ, PYTHONHASHSEED=hs, KDVERIF_REPO=os.environ.get("KDVERIF_REPO", "/repo"), OMP_NUM_THREADS="1"))
+             for hs in ("1", "2", "12345")]
+    for pr in procs:
+        o, e = pr.communicate(timeout=600)
+        line = [l for l in o.splitlines() if l.startswith("STREAMS ")]
+        if pr.returncode != 0 or not line:
+            p.violation("C12:cross_interpreter:exception", dict(cross_interpreter=True), f"sampler script failed: {e[-400:]}")
+            return p
+        outs.append(json.loads(line[0][8:]))
+    p.evaluations += len(outs)
+    for k in sorted(outs[0]):
+        p.transitions += 1
+        if any(o[k] != outs[0][k] for o in outs[1:]):
+            name = k.split("/")[0]
+            p.violation(f"C12:cross_interpreter:{name}:draw_differs_between_interpreter_processes", dict(cross_interpreter=True, key=k),
+                        f"{k} (sampler/seed/epoch/rank): {[o[k] for o in outs]} in three interpreters with different PYTHONHASHSEED")
+            break
+    p.observe(("cross_interpreter", len(outs[0])))
+    return p
+
+
 def run(run):
     N = 6 if run.tier == "quick" else 8
     tasks = [(kind, n, run.tier, part, 6) for kind in ("distributed", "class_balanced", "weighted") for n in range(1, N + 1)
@@ -447,6 +510,7 @@ def run(run):
     run.pmap(task, tasks)
     run.pmap(random_sampler_task, [0])
     run.pmap(env_task, [0])
+    run.pmap(cross_interpreter_task, [0])
     run.exhaustive = run.counters.get("permutation_enumeration_capped", 0) == 0
     run.extra.update(bounds=dict(n=f"1..{N}", world_sizes="1..4 (distributed: also 7, 9)", epochs="0..3", seeds="0..2", num_repeats="1..3",
                                  permutation_answers="all for n<=4 (cap 300 answer sequences per configuration)"))
@@ -459,7 +523,9 @@ def run(run):
 
 def replay(case):
     p = Partial()
-    if case.get("env"):
+    if case.get("cross_interpreter"):
+        p = cross_interpreter_task(0)
+    elif case.get("env"):
         p = env_task(0)
     elif case.get("random_sampler"):
         p = random_sampler_task(0)
